@@ -115,10 +115,54 @@ def main():
                            "from hl7apy.parser import parse_message\nt=%r\nassert parse_message(t, find_groups=%r).to_er7()==t" % (text, fg))
                 else:
                     R.ok((v, mname, fg))
+        # C03: segments the structure does not list, Z-segments, repeated segments, fields beyond the defined count
+        c = message_corpus(v)
+        if c:
+            mname, body = c[0]
+            msh = 'MSH|^~\\&|SND|FAC|RCV|FAC|20200131120000||%s|MSGID1|P|%s' % (mname, v)
+            extras = ['ZZZ|1|2^3', 'NTE|1||free text', 'ZPD|a|b', body[-1]]
+            for pos in range(1, len(body) + 1):
+                for ex in extras:
+                    lines = body[:pos] + [ex] + body[pos:]
+                    text = '\r'.join([msh] + lines)
+                    for fg in (True, False):
+                        try:
+                            out = parse_message(text, find_groups=fg).to_er7()
+                        except Exception as e:
+                            # content that cannot be placed may surface as an exception, never as a shorter message
+                            R.ok((v, 'c03-exc', pos, ex[:3], fg))
+                            continue
+                        got = [l for l in out.split('\r') if l]
+                        want = [l for l in text.split('\r') if l]
+                        if [l[:3] for l in got] != [l[:3] for l in want]:
+                            R.fail('C03:segments:%s:%s:%d:%s' % (v, ex[:3], pos, fg), 'C03:segment-sequence-changed:%s:fg=%s' % (ex[:3], fg),
+                                   'v%s find_groups=%s: input segments %s, output %s' % (v, fg, [l[:3] for l in want], [l[:3] for l in got]),
+                                   "from hl7apy.parser import parse_message\nt=%r\nprint(parse_message(t, find_groups=%r).to_er7())" % (text, fg))
+                        elif [leaves(l) for l in got] != [leaves(l) for l in want]:
+                            R.fail('C03:leaves:%s:%s:%d:%s' % (v, ex[:3], pos, fg), 'C03:leaf-sequence-changed:%s:fg=%s' % (ex[:3], fg),
+                                   'v%s find_groups=%s: leaves differ: %s vs %s' % (v, fg, short(out, 200), short(text, 200)))
+                        else:
+                            R.ok((v, 'c03', pos, ex[:3], fg))
+            over = body[0] + '|' * 40 + 'BEYOND'
+            text = '\r'.join([msh, over] + body[1:])
+            for fg in (True, False):
+                try:
+                    out = parse_message(text, find_groups=fg).to_er7()
+                    if 'BEYOND' not in out:
+                        R.fail('C03:beyond-count:%s:%s' % (v, fg), 'C03:field-beyond-count-dropped', 'v%s: a field beyond the defined count was dropped' % v)
+                    else:
+                        R.ok((v, 'beyond', fg))
+                except Exception:
+                    R.ok((v, 'beyond-exc', fg))
     R.rule = 'canonical texts generated from the structure tables; non-trivial = distinct (version, element, mode)'
     R.bound = 'all 12 versions; %s segments per version; fields to subcomponent depth; 3 message types x find_groups' % (
         'all' if a.tier == 'thorough' else 'core list + 18 seeded')
     R.dump(a.out)
+
+
+def leaves(line):
+    import re
+    return [x for x in re.split(r'[|^&~]', line) if x]
 
 
 def message_corpus(v):
